@@ -674,13 +674,14 @@ func Delete(ctx context.Context, scope *ReferenceScope, query parser.DeleteQuery
 		}
 	}
 
+	// The tables are installed one after another: once the first one is installed the statement can no longer fail.
+	if ctx.Err() != nil {
+		return nil, nil, ConvertContextError(ctx.Err())
+	}
+
 	fileInfos := make([]*FileInfo, 0)
 	deletedCounts := make([]int, 0)
 	for k, v := range viewsToDelete {
-		if ctx.Err() != nil {
-			return nil, nil, ConvertContextError(ctx.Err())
-		}
-
 		records := make(RecordSet, 0, v.RecordLen()-len(deletedIndices[k]))
 		for i, record := range v.RecordSet {
 			if !deletedIndices[k][i] {
